@@ -41,6 +41,10 @@ func genC20(seed int64, tier string) *Plan {
 			}
 		}
 	}
+	// a subscriber that leaves before step leaveat-1 (own stream of choices)
+	if rl := newRng(seed, 201); chance(rl, 50) && len(p.Steps) > 2 {
+		p.Cfg["leaveat"] = 1 + rl.IntN(len(p.Steps))
+	}
 	return p
 }
 
@@ -128,6 +132,32 @@ func runC20(p *Plan, res *Result) {
 			}
 		}()
 	}
+	// subscribers come and go: one bus subscriber and one GraphQL subscription leave at a seeded step; those
+	// who stay must not notice
+	leaveAt := -1
+	var leaver event.Subscription
+	var leaverCancel context.CancelFunc
+	if p.cfg("leaveat", 0) > 0 && len(p.Steps) > 0 {
+		leaveAt = min(p.cfg("leaveat", 0)-1, len(p.Steps)-1)
+		sub, err := n.DB.Events().Subscribe(event.UpdateName)
+		if err != nil {
+			w.fail("subscribe: %v", err)
+			return
+		}
+		leaver = sub
+		go func() {
+			for range sub.Message() {
+			}
+		}()
+		var lctx context.Context
+		lctx, leaverCancel = context.WithCancel(ctx)
+		if lres := n.DB.ExecRequest(lctx, `subscription { User { _docID } }`); lres.Subscription != nil {
+			go func() {
+				for range lres.Subscription {
+				}
+			}()
+		}
+	}
 	n.openSub(fmt.Sprintf("subscription { User(filter: {age: {_ge: %d}}) { _docID age points } }", c20SubFilterAge))
 	synctest.Wait()
 	n.TakeUpdates()
@@ -140,6 +170,12 @@ func runC20(p *Plan, res *Result) {
 			break
 		}
 		setRandStep(fmt.Sprintf("step|%d", i))
+		if i == leaveAt {
+			n.DB.Events().Unsubscribe(leaver)
+			leaverCancel()
+			synctest.Wait()
+			res.Stats["subscribers_left_mid_run"]++
+		}
 		if s.K == "fault" {
 			ss := s
 			pendingFault = &ss
